@@ -1,0 +1,735 @@
+//go:build verif
+
+package tls
+
+// Verification hook (build tag "verif" only): access to the unexported
+// handshake-message and session-state codecs. Per kind: a constructor, marshal,
+// unmarshal and a seeded value generator (the fields are unexported, so values
+// can only be built inside this package). The hook decides nothing: equality
+// and every check live in the harness, which reads the fields of VerifMsg.V by
+// reflection.
+//
+// The generator stays inside the wire format's domain (vector bounds of
+// RFC 5246 / 8446 / 5077 / 6066 / 6962 / 7301 and the comments on the structs):
+// a value it returns is one the marshal functions can represent. Fields that
+// are never carried on the wire are left at their zero value
+// (clientHelloMsg.sctEnabled and .unknownExtensions, serverKeyExchangeMsg.digest,
+// sessionState.usedOldKey, Certificate.PrivateKey/Leaf/SupportedSignatureAlgorithms).
+
+import (
+	"math/rand/v2"
+)
+
+// VerifMsg is one message (or session state) value.
+type VerifMsg struct {
+	Kind string
+	V    any // pointer to the unexported message struct
+	m    handshakeMessage
+}
+
+// Marshal calls the value's marshal method.
+func (v *VerifMsg) Marshal() []byte { return v.m.marshal() }
+
+// Unmarshal calls the value's unmarshal method.
+func (v *VerifMsg) Unmarshal(data []byte) bool { return v.m.unmarshal(data) }
+
+func verifWrap(kind string, m handshakeMessage) *VerifMsg { return &VerifMsg{Kind: kind, V: m, m: m} }
+
+var verifMsgKinds = []string{
+	"clientHello", "serverHello", "encryptedExtensions", "endOfEarlyData", "keyUpdate",
+	"newSessionTicketTLS13", "certificateRequestTLS13", "certificate", "certificateTLS13",
+	"serverKeyExchange", "certificateStatus", "serverHelloDone", "clientKeyExchange", "finished",
+	"certificateRequest", "certificateRequestPre12", "certificateVerify", "certificateVerifyPre12",
+	"newSessionTicket", "helloRequest", "sessionState", "sessionStateTLS13",
+}
+
+// VerifMsgKinds lists the kinds understood by VerifNewMsg / VerifGenerateMsg.
+func VerifMsgKinds() []string { return append([]string(nil), verifMsgKinds...) }
+
+// VerifNewMsg returns an empty receiver of the kind, configured the way the
+// handshake configures it before unmarshalling (hasSignatureAlgorithm).
+func VerifNewMsg(kind string) *VerifMsg {
+	switch kind {
+	case "clientHello":
+		return verifWrap(kind, &clientHelloMsg{})
+	case "serverHello":
+		return verifWrap(kind, &serverHelloMsg{})
+	case "encryptedExtensions":
+		return verifWrap(kind, &encryptedExtensionsMsg{})
+	case "endOfEarlyData":
+		return verifWrap(kind, &endOfEarlyDataMsg{})
+	case "keyUpdate":
+		return verifWrap(kind, &keyUpdateMsg{})
+	case "newSessionTicketTLS13":
+		return verifWrap(kind, &newSessionTicketMsgTLS13{})
+	case "certificateRequestTLS13":
+		return verifWrap(kind, &certificateRequestMsgTLS13{})
+	case "certificate":
+		return verifWrap(kind, &certificateMsg{})
+	case "certificateTLS13":
+		return verifWrap(kind, &certificateMsgTLS13{})
+	case "serverKeyExchange":
+		return verifWrap(kind, &serverKeyExchangeMsg{})
+	case "certificateStatus":
+		return verifWrap(kind, &certificateStatusMsg{})
+	case "serverHelloDone":
+		return verifWrap(kind, &serverHelloDoneMsg{})
+	case "clientKeyExchange":
+		return verifWrap(kind, &clientKeyExchangeMsg{})
+	case "finished":
+		return verifWrap(kind, &finishedMsg{})
+	case "certificateRequest":
+		return verifWrap(kind, &certificateRequestMsg{hasSignatureAlgorithm: true})
+	case "certificateRequestPre12":
+		return verifWrap(kind, &certificateRequestMsg{})
+	case "certificateVerify":
+		return verifWrap(kind, &certificateVerifyMsg{hasSignatureAlgorithm: true})
+	case "certificateVerifyPre12":
+		return verifWrap(kind, &certificateVerifyMsg{})
+	case "newSessionTicket":
+		return verifWrap(kind, &newSessionTicketMsg{})
+	case "helloRequest":
+		return verifWrap(kind, &helloRequestMsg{})
+	case "sessionState":
+		return verifWrap(kind, &sessionState{})
+	case "sessionStateTLS13":
+		return verifWrap(kind, &sessionStateTLS13{})
+	}
+	return nil
+}
+
+// Generation modes.
+const (
+	VerifGenTypical  = 0 // every optional part present with probability 1/2, short fields
+	VerifGenMinimal  = 1 // every optional part absent, every vector at its minimum length
+	VerifGenBoundary = 2 // lengths drawn from {min, min+1, 255, 256, 257, max} within the enclosing container
+	VerifGenMaximal  = 3 // one vector (index arg) at the exact maximum its container allows, the rest minimal
+	VerifGenOnly     = 4 // optional part arg present, the others absent
+	VerifGenAllBut   = 5 // optional part arg absent, the others present
+	VerifGenAll      = 6 // every optional part present
+)
+
+// VerifMsgOptions is the number of optional parts of a kind (arg of VerifGenOnly / VerifGenAllBut).
+func VerifMsgOptions(kind string) int {
+	switch kind {
+	case "clientHello":
+		return 18
+	case "serverHello":
+		return 13
+	case "certificateRequestTLS13":
+		return 5
+	case "certificateTLS13":
+		return 2
+	case "newSessionTicketTLS13", "encryptedExtensions":
+		return 1
+	}
+	return 0
+}
+
+// VerifMsgMaximalFields is the number of vectors of a kind that VerifGenMaximal can drive to their maximum.
+func VerifMsgMaximalFields(kind string) int {
+	switch kind {
+	case "clientHello":
+		return 10
+	case "serverHello":
+		return 5
+	case "certificateVerify", "certificateVerifyPre12", "newSessionTicket", "sessionState", "sessionStateTLS13",
+		"finished", "clientKeyExchange", "serverKeyExchange", "certificateStatus", "encryptedExtensions":
+		return 1
+	case "newSessionTicketTLS13", "certificateRequest", "certificateRequestPre12", "certificate", "certificateTLS13", "certificateRequestTLS13":
+		return 2
+	}
+	return 0
+}
+
+type verifGen struct {
+	r      *rand.Rand
+	mode   int
+	arg    int
+	budget int // bytes still available in the enclosing 16-bit container
+}
+
+func (g *verifGen) bytes(n int) []byte {
+	b := make([]byte, n)
+	for i := 0; i < n; i += 8 {
+		v := g.r.Uint64()
+		for j := i; j < i+8 && j < n; j++ {
+			b[j] = byte(v)
+			v >>= 8
+		}
+	}
+	return b
+}
+
+func (g *verifGen) nonzeroBytes(n int) []byte {
+	b := g.bytes(n)
+	for i := range b {
+		if b[i] == 0 {
+			b[i] = 1
+		}
+	}
+	return b
+}
+
+func (g *verifGen) u16() uint16 { return uint16(g.r.Uint32()) }
+
+// has decides whether optional part i is present.
+func (g *verifGen) has(i int) bool {
+	switch g.mode {
+	case VerifGenMinimal, VerifGenMaximal:
+		return false
+	case VerifGenOnly:
+		return i == g.arg
+	case VerifGenAllBut:
+		return i != g.arg
+	case VerifGenAll:
+		return true
+	}
+	return g.r.IntN(2) == 0
+}
+
+// opt decides whether optional variable-length part i is present; it is left
+// out when fewer than need bytes remain in the enclosing container.
+func (g *verifGen) opt(i, need int) bool { return g.has(i) && g.budget >= need+64 }
+
+// pick draws a length in [min, max] according to the mode.
+func (g *verifGen) pick(min, max int) int {
+	if max < min {
+		max = min
+	}
+	switch g.mode {
+	case VerifGenMinimal, VerifGenMaximal:
+		return min
+	case VerifGenBoundary:
+		c := []int{min, min + 1, 255, 256, 257, max, max - 1, min + g.r.IntN(max-min+1)}
+		v := c[g.r.IntN(len(c))]
+		if v < min {
+			v = min
+		}
+		if v > max {
+			v = max
+		}
+		return v
+	}
+	span := max - min
+	if span > 40 {
+		span = 40
+	}
+	return min + g.r.IntN(span+1)
+}
+
+// own draws the length of a vector that sits in a container of its own.
+func (g *verifGen) own(min, max int) int { return g.pick(min, max) }
+
+// in draws the length of a vector inside the shared 16-bit container and
+// charges it (plus framing overhead) to the budget.
+func (g *verifGen) in(min, max, overhead int) int {
+	lim := g.budget - overhead
+	if lim < max {
+		max = lim
+	}
+	n := g.pick(min, max)
+	g.budget -= n + overhead
+	return n
+}
+
+// room reports whether a part needing at least n bytes still fits.
+func (g *verifGen) room(n int) bool { return g.budget >= n+64 }
+
+func (g *verifGen) sigAlgs() []SignatureScheme {
+	n := g.in(2, 2*60, 8) / 2
+	if n < 1 {
+		n = 1
+	}
+	out := make([]SignatureScheme, n)
+	for i := range out {
+		out[i] = SignatureScheme(g.u16())
+	}
+	return out
+}
+
+func (g *verifGen) vecs(count, min, max, overhead int) [][]byte {
+	out := make([][]byte, 0, count)
+	for i := 0; i < count && g.room(min+overhead); i++ {
+		out = append(out, g.bytes(g.in(min, max, overhead)))
+	}
+	return out
+}
+
+func (g *verifGen) count(min, max int) int {
+	switch g.mode {
+	case VerifGenMinimal, VerifGenMaximal:
+		return min
+	case VerifGenBoundary:
+		if g.r.IntN(4) == 0 {
+			return max
+		}
+	}
+	span := max - min
+	if span > 5 {
+		span = 5
+	}
+	return min + g.r.IntN(span+1)
+}
+
+var verifKnownServerHelloExts = map[uint16]bool{
+	extensionStatusRequest: true, extensionSessionTicket: true, extensionRenegotiationInfo: true, extensionALPN: true,
+	extensionSCT: true, extensionSupportedVersions: true, extensionCookie: true, extensionKeyShare: true,
+	extensionPreSharedKey: true, extensionSupportedPoints: true, extensionExtendedMasterSecret: true,
+}
+
+// VerifGenerateMsg builds a value of the kind from the seeded generator.
+func VerifGenerateMsg(kind string, r *rand.Rand, mode, arg int) *VerifMsg {
+	g := &verifGen{r: r, mode: mode, arg: arg, budget: 65535 - 64}
+	max := func(field int) bool { return mode == VerifGenMaximal && arg == field }
+	switch kind {
+	case "clientHello":
+		m := &clientHelloMsg{}
+		m.vers = g.u16()
+		m.random = g.bytes(32)
+		m.sessionId = g.bytes(g.own(0, 32))
+		ns := g.own(1, 300)
+		if mode == VerifGenBoundary && g.r.IntN(8) == 0 || max(0) {
+			ns = 32767
+		}
+		if max(1) {
+			m.sessionId = g.bytes(32)
+		}
+		m.cipherSuites = make([]uint16, ns)
+		for i := range m.cipherSuites {
+			for {
+				if m.cipherSuites[i] = g.u16(); m.cipherSuites[i] != scsvRenegotiation {
+					break
+				}
+			}
+		}
+		m.compressionMethods = g.bytes(g.own(1, 255))
+		if max(2) {
+			m.compressionMethods = g.bytes(255)
+		}
+		// extensions: the block is one 16-bit vector
+		if g.opt(0, 10) || max(3) {
+			n := g.in(1, 65526, 9)
+			if max(3) {
+				n = 65526
+			}
+			b := g.nonzeroBytes(n)
+			if b[n-1] == '.' {
+				b[n-1] = 'x'
+			}
+			m.serverName = string(b)
+		}
+		m.ocspStapling = g.has(1)
+		if g.opt(2, 10) {
+			m.supportedCurves = make([]CurveID, g.in(2, 2*40, 8)/2)
+			for i := range m.supportedCurves {
+				m.supportedCurves[i] = CurveID(g.u16())
+			}
+		}
+		if g.opt(3, 6) {
+			m.supportedPoints = g.bytes(g.in(1, 255, 5))
+		}
+		if g.opt(4, 4) || max(4) {
+			m.ticketSupported = true
+			n := g.in(0, 65531, 4)
+			if max(4) {
+				n = 65531
+			}
+			m.sessionTicket = g.bytes(n)
+		}
+		if g.opt(5, 10) {
+			m.supportedSignatureAlgorithms = g.sigAlgs()
+		}
+		if g.opt(6, 10) {
+			m.supportedSignatureAlgorithmsCert = g.sigAlgs()
+		}
+		if g.opt(7, 5) || max(5) {
+			m.secureRenegotiationSupported = true
+			n := g.in(0, 255, 5)
+			if max(5) {
+				n = 255
+			}
+			m.secureRenegotiation = g.bytes(n)
+			if g.r.IntN(4) == 0 {
+				m.cipherSuites[g.r.IntN(len(m.cipherSuites))] = scsvRenegotiation
+			}
+		}
+		if g.opt(8, 10) || max(6) {
+			if max(6) { // 255 protocols of 255 bytes + one of 248: a full 65529-byte list
+				for i := 0; i < 255; i++ {
+					m.alpnProtocols = append(m.alpnProtocols, string(g.bytes(255)))
+				}
+				m.alpnProtocols = append(m.alpnProtocols, string(g.bytes(248)))
+			} else {
+				g.budget -= 6
+				for i, k := 0, g.count(1, 6); i < k && g.room(2); i++ {
+					m.alpnProtocols = append(m.alpnProtocols, string(g.bytes(g.in(1, 255, 1))))
+				}
+			}
+		}
+		if g.opt(9, 10) {
+			m.extendedRandomEnabled = true
+			m.extendedRandom = g.bytes(g.in(1, 64, 8))
+		}
+		m.extendedMasterSecret = g.has(10)
+		m.scts = g.has(11)
+		if g.opt(12, 8) {
+			m.supportedVersions = make([]uint16, g.in(2, 254, 5)/2)
+			for i := range m.supportedVersions {
+				m.supportedVersions[i] = g.u16()
+			}
+		}
+		if g.opt(13, 8) || max(7) {
+			n := g.in(1, 65529, 6)
+			if max(7) {
+				n = 65529
+			}
+			m.cookie = g.bytes(n)
+		}
+		if g.opt(14, 16) || max(8) {
+			g.budget -= 6
+			if max(8) {
+				m.keyShares = []keyShare{{group: CurveID(g.u16()), data: g.bytes(65525)}}
+			} else {
+				for i, k := 0, g.count(1, 4); i < k && g.room(8); i++ {
+					m.keyShares = append(m.keyShares, keyShare{group: CurveID(g.u16()), data: g.bytes(g.in(1, 65525, 4))})
+				}
+			}
+		}
+		m.earlyData = g.has(15)
+		if g.opt(16, 6) {
+			m.pskModes = g.bytes(g.in(1, 255, 5))
+		}
+		if g.opt(17, 400) || max(9) {
+			g.budget -= 8
+			if max(9) {
+				m.pskIdentities = []pskIdentity{{label: g.bytes(65488), obfuscatedTicketAge: g.r.Uint32()}}
+				m.pskBinders = [][]byte{g.bytes(32)}
+			} else {
+				for i, k := 0, g.count(1, 4); i < k && g.room(300); i++ {
+					labelMax := g.budget - 300 // leave room for the binder
+					m.pskIdentities = append(m.pskIdentities, pskIdentity{label: g.bytes(g.in(1, labelMax, 6)), obfuscatedTicketAge: g.r.Uint32()})
+					m.pskBinders = append(m.pskBinders, g.bytes(g.in(32, 255, 1)))
+				}
+			}
+		}
+		return verifWrap(kind, m)
+
+	case "serverHello":
+		m := &serverHelloMsg{}
+		m.vers = g.u16()
+		m.random = g.bytes(32)
+		m.sessionId = g.bytes(g.own(0, 32))
+		if max(0) {
+			m.sessionId = g.bytes(32)
+		}
+		m.cipherSuite = g.u16()
+		m.compressionMethod = uint8(g.r.Uint32())
+		m.ocspStapling = g.has(0)
+		m.ticketSupported = g.has(1)
+		if g.opt(2, 5) || max(1) {
+			m.secureRenegotiationSupported = true
+			n := g.in(0, 255, 5)
+			if max(1) {
+				n = 255
+			}
+			m.secureRenegotiation = g.bytes(n)
+		}
+		if g.opt(3, 8) {
+			m.alpnProtocol = string(g.bytes(g.in(1, 255, 7)))
+		}
+		if g.opt(4, 12) || max(2) {
+			g.budget -= 6
+			if max(2) {
+				m.scts = [][]byte{g.bytes(65527)}
+			} else {
+				m.scts = g.vecs(g.count(1, 4), 1, 65527, 2)
+			}
+		}
+		if g.has(5) {
+			m.supportedVersion = g.u16() | 1
+		}
+		if g.opt(6, 9) || max(3) {
+			n := g.in(1, 65527, 8)
+			if max(3) {
+				n = 65527
+			}
+			m.serverShare = keyShare{group: CurveID(g.u16() | 1), data: g.bytes(n)}
+		}
+		if g.has(7) {
+			m.selectedIdentityPresent = true
+			m.selectedIdentity = g.u16()
+		}
+		if g.opt(8, 7) || max(4) {
+			n := g.in(1, 65529, 6)
+			if max(4) {
+				n = 65529
+			}
+			m.cookie = g.bytes(n)
+		}
+		if g.has(9) && m.serverShare.group == 0 {
+			m.selectedGroup = CurveID(g.u16() | 1)
+		}
+		if g.opt(10, 6) {
+			m.supportedPoints = g.bytes(g.in(1, 255, 5))
+		}
+		m.extendedMasterSecret = g.has(11)
+		if g.opt(12, 4) {
+			for i, k := 0, g.count(1, 4); i < k && g.room(4); i++ {
+				var t uint16
+				for {
+					if t = g.u16(); !verifKnownServerHelloExts[t] {
+						break
+					}
+				}
+				n := g.in(0, 65531, 4)
+				ext := append([]byte{byte(t >> 8), byte(t), byte(n >> 8), byte(n)}, g.bytes(n)...)
+				m.unknownExtensions = append(m.unknownExtensions, ext)
+			}
+		}
+		return verifWrap(kind, m)
+
+	case "encryptedExtensions":
+		m := &encryptedExtensionsMsg{}
+		if g.has(0) || max(0) {
+			m.alpnProtocol = string(g.bytes(g.in(1, 255, 7)))
+			if max(0) {
+				m.alpnProtocol = string(g.bytes(255))
+			}
+		}
+		return verifWrap(kind, m)
+
+	case "endOfEarlyData":
+		return verifWrap(kind, &endOfEarlyDataMsg{})
+
+	case "keyUpdate":
+		return verifWrap(kind, &keyUpdateMsg{updateRequested: g.r.IntN(2) == 0})
+
+	case "newSessionTicketTLS13":
+		m := &newSessionTicketMsgTLS13{lifetime: g.r.Uint32(), ageAdd: g.r.Uint32()}
+		m.nonce = g.bytes(g.own(0, 255))
+		m.label = g.bytes(g.own(0, 65535))
+		if max(0) {
+			m.nonce = g.bytes(255)
+		}
+		if max(1) {
+			m.label = g.bytes(65535)
+		}
+		if g.has(0) {
+			m.maxEarlyData = g.r.Uint32() | 1
+		}
+		return verifWrap(kind, m)
+
+	case "certificateRequestTLS13":
+		m := &certificateRequestMsgTLS13{ocspStapling: g.has(0), scts: g.has(1)}
+		if g.opt(2, 10) || max(0) {
+			m.supportedSignatureAlgorithms = g.sigAlgs()
+			if max(0) {
+				m.supportedSignatureAlgorithms = make([]SignatureScheme, 32764)
+				for i := range m.supportedSignatureAlgorithms {
+					m.supportedSignatureAlgorithms[i] = SignatureScheme(g.u16())
+				}
+			}
+		}
+		if g.opt(3, 10) {
+			m.supportedSignatureAlgorithmsCert = g.sigAlgs()
+		}
+		if g.opt(4, 12) || max(1) {
+			g.budget -= 6
+			if max(1) {
+				m.certificateAuthorities = [][]byte{g.bytes(65527)}
+			} else {
+				m.certificateAuthorities = g.vecs(g.count(1, 5), 1, 65527, 2)
+			}
+		}
+		return verifWrap(kind, m)
+
+	case "certificate":
+		m := &certificateMsg{}
+		k := g.count(0, 20)
+		for i := 0; i < k; i++ {
+			m.certificates = append(m.certificates, g.bytes(g.own(1, 3000)))
+		}
+		if max(0) {
+			m.certificates = [][]byte{g.bytes(70000)}
+		}
+		if max(1) {
+			for i := 0; i < 300; i++ {
+				m.certificates = append(m.certificates, g.bytes(1+i%3))
+			}
+		}
+		return verifWrap(kind, m)
+
+	case "certificateTLS13":
+		m := &certificateMsgTLS13{}
+		m.ocspStapling, m.scts = g.has(0), g.has(1)
+		m.certificate = g.certificate(m.ocspStapling, m.scts, max(0), max(1))
+		m.ocspStapling = m.certificate.OCSPStaple != nil
+		m.scts = m.certificate.SignedCertificateTimestamps != nil
+		return verifWrap(kind, m)
+
+	case "serverKeyExchange":
+		m := &serverKeyExchangeMsg{key: g.bytes(g.own(0, 2000))}
+		if max(0) {
+			m.key = g.bytes(70000)
+		}
+		return verifWrap(kind, m)
+
+	case "certificateStatus":
+		m := &certificateStatusMsg{response: g.bytes(g.own(1, 4000))}
+		if max(0) {
+			m.response = g.bytes(70000)
+		}
+		return verifWrap(kind, m)
+
+	case "serverHelloDone":
+		return verifWrap(kind, &serverHelloDoneMsg{})
+
+	case "clientKeyExchange":
+		m := &clientKeyExchangeMsg{ciphertext: g.bytes(g.own(0, 1200))}
+		if max(0) {
+			m.ciphertext = g.bytes(70000)
+		}
+		return verifWrap(kind, m)
+
+	case "finished":
+		lens := []int{12, 12, 32, 48, 36, 0, 1}
+		m := &finishedMsg{verifyData: g.bytes(lens[g.r.IntN(len(lens))])}
+		if mode == VerifGenMinimal {
+			m.verifyData = nil
+		}
+		if max(0) {
+			m.verifyData = g.bytes(70000)
+		}
+		return verifWrap(kind, m)
+
+	case "certificateRequest", "certificateRequestPre12":
+		m := &certificateRequestMsg{hasSignatureAlgorithm: kind == "certificateRequest"}
+		m.certificateTypes = g.bytes(g.own(1, 255))
+		if m.hasSignatureAlgorithm {
+			n := g.own(0, 60)
+			if mode == VerifGenBoundary && g.r.IntN(6) == 0 {
+				n = 32767
+			}
+			m.supportedSignatureAlgorithms = make([]SignatureScheme, n)
+			for i := range m.supportedSignatureAlgorithms {
+				m.supportedSignatureAlgorithms[i] = SignatureScheme(g.u16())
+			}
+		}
+		// certificate_authorities<0..2^16-1>
+		if max(0) {
+			m.certificateAuthorities = [][]byte{g.bytes(65533)}
+		} else if max(1) {
+			for i := 0; i < 21845; i++ { // 21845 one-byte names: exactly 65535 bytes
+				m.certificateAuthorities = append(m.certificateAuthorities, g.bytes(1))
+			}
+		} else {
+			m.certificateAuthorities = g.vecs(g.count(0, 8), 1, 65533, 2)
+		}
+		return verifWrap(kind, m)
+
+	case "certificateVerify", "certificateVerifyPre12":
+		m := &certificateVerifyMsg{hasSignatureAlgorithm: kind == "certificateVerify"}
+		if m.hasSignatureAlgorithm {
+			m.signatureAlgorithm = SignatureScheme(g.u16())
+		}
+		m.signature = g.bytes(g.own(0, 65535))
+		if max(0) {
+			m.signature = g.bytes(65535)
+		}
+		return verifWrap(kind, m)
+
+	case "newSessionTicket":
+		m := &newSessionTicketMsg{ticket: g.bytes(g.own(0, 65535))}
+		if mode != VerifGenMinimal {
+			m.lifetimeHint = g.r.Uint32()
+		}
+		if max(0) {
+			m.ticket = g.bytes(65535)
+		}
+		return verifWrap(kind, m)
+
+	case "helloRequest":
+		return verifWrap(kind, &helloRequestMsg{})
+
+	case "sessionState":
+		m := &sessionState{vers: g.u16(), cipherSuite: g.u16(), createdAt: g.r.Uint64()}
+		m.masterSecret = g.bytes(g.own(1, 65535))
+		if max(0) {
+			m.masterSecret = g.bytes(65535)
+		}
+		for i, k := 0, g.count(0, 20); i < k; i++ {
+			m.certificates = append(m.certificates, g.bytes(g.own(1, 3000)))
+		}
+		return verifWrap(kind, m)
+
+	case "sessionStateTLS13":
+		m := &sessionStateTLS13{cipherSuite: g.u16(), createdAt: g.r.Uint64()}
+		m.resumptionSecret = g.bytes(g.own(1, 255))
+		if max(0) {
+			m.resumptionSecret = g.bytes(255)
+		}
+		m.certificate = g.certificate(g.r.IntN(2) == 0 && mode != VerifGenMinimal, g.r.IntN(2) == 0 && mode != VerifGenMinimal, false, false)
+		return verifWrap(kind, m)
+	}
+	return nil
+}
+
+// certificate builds a TLS 1.3 certificate list with optional leaf extensions.
+func (g *verifGen) certificate(ocsp, scts, maxOCSP, maxSCT bool) Certificate {
+	var c Certificate
+	lo := 0
+	if ocsp || scts || maxOCSP || maxSCT {
+		lo = 1
+	}
+	for i, k := 0, g.count(lo, 4); i < k; i++ {
+		c.Certificate = append(c.Certificate, g.bytes(g.own(1, 3000)))
+	}
+	// the leaf's extension block is one 16-bit vector
+	if maxOCSP {
+		c.OCSPStaple = g.bytes(65535 - 8)
+		return c
+	}
+	if maxSCT {
+		c.SignedCertificateTimestamps = [][]byte{g.bytes(65535 - 8)}
+		return c
+	}
+	g.budget = 65535 - 64
+	if ocsp {
+		lim := 65527
+		if scts {
+			lim = 30000
+		}
+		c.OCSPStaple = g.bytes(g.in(1, lim, 8))
+	}
+	if scts {
+		g.budget -= 6
+		c.SignedCertificateTimestamps = g.vecs(g.count(1, 3), 1, 30000, 2)
+		if len(c.SignedCertificateTimestamps) == 0 {
+			c.SignedCertificateTimestamps = nil
+		}
+	}
+	return c
+}
+
+// VerifFPImplementedSuiteIDs lists the ids of implementedCipherSuites (the set a
+// ClientFingerprintConfiguration may name without ForceSuites), without repeats.
+func VerifFPImplementedSuiteIDs() []uint16 {
+	seen := map[uint16]bool{}
+	var out []uint16
+	for _, s := range implementedCipherSuites {
+		if !seen[s.id] {
+			seen[s.id] = true
+			out = append(out, s.id)
+		}
+	}
+	return out
+}
+
+// VerifFPDefaultCurves returns defaultCurvePreferences (what SupportedCurvesExtension.CheckImplemented accepts).
+func VerifFPDefaultCurves() []CurveID { return append([]CurveID(nil), defaultCurvePreferences...) }
+
+// VerifFPSupportedSigAndHashes returns supportedSKXSignatureAlgorithms (what SignatureAlgorithmExtension.CheckImplemented accepts).
+func VerifFPSupportedSigAndHashes() []SigAndHash {
+	return append([]SigAndHash(nil), supportedSKXSignatureAlgorithms...)
+}
